@@ -198,6 +198,9 @@ def mutants(prog):
         ("in-place add on tanh output", "deepali.spatial.linear", "AnisotropicScaling.scales", "params = params.sub(1).tanh().exp()", "params = params.sub(1).tanh().mul_(1).exp()", "E8.saved-inplace"),
         ("update hook bound to the instance", "deepali.spatial.base", "SpatialTransform._update_hook", "@staticmethod\ndef _update_hook(transform: Module, *args, **kwargs) -> None:", "def _update_hook(transform, *args, **kwargs) -> None:", "E8.hook-receiver"),
         ("svf update: velocity buffer detached", "deepali.spatial.nonrigid", "StationaryVelocityFieldTransform.update", "self.register_buffer('v', v, persistent=False)", "self.register_buffer('v', v.detach(), persistent=False)", "E8.buffer-graph"),
+        ("generic: affine components own their parameters although a network predicts them", "deepali.spatial.generic", "GenericSpatialTransform.__init__", "kwargs = dict(grid=grid, params=params if isinstance(params, bool) else None)", "kwargs = dict(grid=grid, params=params if isinstance(params, bool) else True)", "T20.generic-leaf"),
+        ("generic update: predicted values detached", "deepali.spatial.generic", "GenericSpatialTransform.update", "transform.data_(p)", "transform.data_(p.detach())", "T20.generic-leaf"),
+        ("conv1d: kernel always float32", CI, "conv1d", "if is_float_dtype(dtype):\n        kernel = kernel.type(dtype)", "if is_float_dtype(dtype):\n        kernel = kernel.type(torch.float)", "T5.dtype"),
     ]
     for name, mod, fn, old, new, expect in specs:
         if expect == "SKIP":
